@@ -338,3 +338,164 @@ SPECS.append(pt_spec('C08', 'processTask: KeyboardInterrupt / SystemExit(code) r
 SPECS.append(pt_spec('C05', 'processTask: the generator step runs with _currently_handling = the event (so that events it fires are '
                             'linked into the completion tracking); every path finishes the event or leaves a waiting handler',
                      ['return', 'step'], step_hook=c05_step_hook))
+
+
+# ============================================================================= closures of Manager.waitEvent (C06)
+# captured variables of the enclosing waitEvent call are explicit ghost parameters (spec.env)
+W_FIELDS = dict(T_FIELDS)
+W_FIELDS.update({'st_event': Ref, 'flag': Bool, 'run': Bool, 'timeout': Int, 'tick_handler': Ref, 'alert_done': Bool})
+W_ALIAS = dict(T_ALIAS)
+W_ALIAS.update({('State', 'event'): 'st_event'})
+
+
+def w_objs(I):
+    self = obj(I, 'self', 'Manager')
+    state = obj(I, 'state', 'State')
+    g = I.st.ghost
+    g['STATE'] = state
+    g['EVENT_OBJECT'] = sym(I, 'event_object', RefOf('Event'))
+    g['EVENT_NAME'] = sym(I, 'event_name', Str)
+    for nm in ('_on_event_handler', '_on_done_handler', '_on_tick_handler'):
+        g[nm] = obj(I, nm, 'Handler')
+    I.st.inputs['state.run'] = I.fz(state, 'run')
+    I.st.inputs['state.flag'] = I.fz(state, 'flag')
+    I.st.inputs['state.timeout'] = I.fz(state, 'timeout')
+    return self, state
+
+
+W_ENV = {'state': lambda I: I.st.ghost['STATE'], 'event_object': lambda I: lib.unopt(I, I.st.ghost['EVENT_OBJECT']) if False else I.st.ghost['EVENT_OBJECT'],
+         'event_name': lambda I: I.st.ghost['EVENT_NAME'], '_on_event_handler': lambda I: I.st.ghost['_on_event_handler'],
+         '_on_done_handler': lambda I: I.st.ghost['_on_done_handler'], '_on_tick_handler': lambda I: I.st.ghost['_on_tick_handler']}
+
+
+def s_removeHandler(I, recv, args, kw):
+    log(I, 'REMOVED').append(tuple(args))
+    return NONE
+
+
+def w_register(I, recv, args, kw):
+    log(I, 'REGISTERED').append(args[0])
+    return NONE
+
+
+W_CALLS = {'self.removeHandler': s_removeHandler, 'self.registerTask': w_register,
+           'ExceptionWrapper': lambda I, r, a, k: VCons('ExceptionWrapper', a), 'TimeoutError': lambda I, r, a, k: VExc('TimeoutError', a)}
+
+
+def w_no_escape(I, outcome):
+    kind, v = outcome
+    if kind == 'raise':
+        I.oblige('no_escape', z3.BoolVal(False), detail='escaping %s' % v.cls)
+        return True
+    return False
+
+
+# --- _on_done
+def wd_setup(I):
+    self, state = w_objs(I)
+    event = obj(I, 'event', 'Event')       # the <name>_done event; event.parent is the event that is done
+    return {'self': self, 'event': event, 'args': VTuple([]), 'kwargs': VCDict({})}
+
+
+def wd_post(I, outcome, ctx):
+    if w_no_escape(I, outcome):
+        return
+    cover(I, 'return')
+    a, pre = ctx['args'], ctx['pre']
+    self, event = a['self'], a['event']
+    state = I.st.ghost['STATE']
+    mine = z3.Select(pre['st_event'][0], state.t) == I.field(event, 'e_parent').t
+    regs, rem = log(I, 'REGISTERED'), log(I, 'REMOVED')
+    I.oblige('resumes_only_for_the_done_of_its_own_event', z3.BoolVal(len(regs) >= 1) == mine,
+             detail='a caller is resumed by the done event of the event it waits for, never by that of another event of the same name '
+                    '(several calls may be in flight without mixing up their results)')
+    I.oblige('resumed_at_most_once_per_done_event', z3.BoolVal(len(regs) <= 1))
+    for t in regs:
+        cover(I, 'resumed')
+        I.oblige('parked_task_is_rescheduled_as_parked', z3.And(z3.BoolVal(isinstance(t, VTuple) and len(t.items) == 3),
+                                                                t.items[0].t == I.field(state, 'task_event').t, t.items[1].t == I.field(state, 'st_task').t,
+                                                                t.items[2].t == I.field(state, 'st_parent').t))
+        I.oblige('flag_set', I.fz(state, 'flag'))
+    I.oblige('foreign_done_changes_nothing', z3.Implies(z3.Not(mine), z3.And(I.fz(state, 'flag') == z3.Select(pre['flag'][0], state.t), z3.BoolVal(len(rem) == 0))))
+    t0 = z3.Select(pre['timeout'][0], state.t)
+    I.oblige('tick_handler_removed_iff_a_timeout_is_running', z3.Implies(mine, z3.BoolVal(len(rem) == 1) == (t0 > 0)))
+    for r in rem:
+        I.oblige('removes_its_own_tick_handler', z3.And(r[0].t == I.field(state, 'tick_handler').t, r[1].t == z3.StringVal('generate_events')))
+
+
+SPECS.append(FucSpec(
+    'C06', FILE, 'Manager.waitEvent.<locals>._on_done', wd_setup, wd_post, fields=W_FIELDS, field_alias=W_ALIAS, calls=W_CALLS, env=W_ENV,
+    classes=EVENT_CLASSES, cover=['return', 'resumed'],
+    clause='waitEvent._on_done: the parked (task_event, task, parent) is rescheduled exactly when the done event belongs to the event this '
+           'waiter bound to, once; a running timeout\'s tick handler is removed; any other done event changes nothing'))
+
+
+# --- _on_event
+def we_setup(I):
+    self, state = w_objs(I)
+    event = obj(I, 'event', 'Event')
+    return {'self': self, 'event': event, 'args': VTuple([]), 'kwargs': VCDict({})}
+
+
+def we_post(I, outcome, ctx):
+    if w_no_escape(I, outcome):
+        return
+    cover(I, 'return')
+    a, pre = ctx['args'], ctx['pre']
+    event = a['event']
+    g = I.st.ghost
+    state = g['STATE']
+    run0 = z3.Select(pre['run'][0], state.t)
+    eo = g['EVENT_OBJECT']
+    matches = z3.Or(eo.t == core.null(), eo.t == event.t)
+    binds = z3.And(z3.Not(run0), matches)
+    rem = log(I, 'REMOVED')
+    I.oblige('binds_to_the_first_matching_event_only', z3.And(z3.BoolVal(len(rem) <= 1), z3.BoolVal(len(rem) == 1) == binds))
+    I.oblige('bound_event_recorded_and_asked_for_done', z3.Implies(binds, z3.And(I.field(state, 'st_event').t == event.t, I.fz(state, 'run'), I.fz(event, 'alert_done'))))
+    I.oblige('other_events_leave_the_waiter_alone', z3.Implies(z3.Not(binds), z3.And(
+        I.field(state, 'st_event').t == z3.Select(pre['st_event'][0], state.t), I.fz(event, 'alert_done') == z3.Select(pre['alert_done'][0], event.t))))
+    for r in rem:
+        cover(I, 'bound')
+        I.oblige('removes_itself', z3.And(r[0].t == g['_on_event_handler'].t, r[1].t == g['EVENT_NAME'].t))
+
+
+SPECS.append(FucSpec(
+    'C06', FILE, 'Manager.waitEvent.<locals>._on_event', we_setup, we_post, fields=W_FIELDS, field_alias=W_ALIAS, calls=W_CALLS, env=W_ENV,
+    classes=EVENT_CLASSES, cover=['return', 'bound'],
+    clause='waitEvent._on_event: binds the waiter to the first matching event (the given object, or by name), asks that event for a '
+           'done notification, removes its own temporary handler; later events do nothing'))
+
+
+# --- _on_tick
+def wt_setup(I):
+    self, state = w_objs(I)
+    return {'self': self}
+
+
+def wt_post(I, outcome, ctx):
+    if w_no_escape(I, outcome):
+        return
+    cover(I, 'return')
+    pre = ctx['pre']
+    g = I.st.ghost
+    state = g['STATE']
+    t0 = z3.Select(pre['timeout'][0], state.t)
+    regs, rem = log(I, 'REGISTERED'), log(I, 'REMOVED')
+    I.oblige('timeout_error_exactly_at_zero', z3.BoolVal(len(regs) == 1) == (t0 == 0), detail='TimeoutError no earlier than after the given number of loop iterations')
+    I.oblige('countdown_one_per_tick', z3.Implies(t0 > 0, I.fz(state, 'timeout') == t0 - 1))
+    I.oblige('no_timeout_means_no_countdown', z3.Implies(t0 < 0, z3.And(I.fz(state, 'timeout') == t0, z3.BoolVal(len(regs) == 0 and len(rem) == 0))))
+    if regs:
+        cover(I, 'timed_out')
+        t = regs[0]
+        I.oblige('timeout_is_thrown_into_the_parked_caller', z3.And(z3.BoolVal(isinstance(t, VTuple) and len(t.items) == 3), t.items[0].t == I.field(state, 'task_event').t,
+                                                                   t.items[2].t == I.field(state, 'st_parent').t))
+        names = sorted((r[0].t.decl().name() if isinstance(r[0], VRef) else '?') for r in rem)
+        I.oblige('both_temporary_handlers_removed', z3.BoolVal(len(rem) == 2 and names == ['_on_done_handler', '_on_tick_handler']),
+                 detail='no temporary handler remains after a timeout')
+
+
+SPECS.append(FucSpec(
+    'C06', FILE, 'Manager.waitEvent.<locals>._on_tick', wt_setup, wt_post, fields=W_FIELDS, field_alias=W_ALIAS, calls=W_CALLS, env=W_ENV,
+    classes=EVENT_CLASSES, cover=['return', 'timed_out'],
+    clause='waitEvent._on_tick: the countdown loses one per loop iteration; exactly at 0 a TimeoutError task for the parked caller is '
+           'registered and both temporary handlers are removed; without a timeout nothing happens'))
